@@ -419,7 +419,12 @@ func mozVerify(blob []byte, cert *x509.Certificate, detached []byte) (accepted b
 	if detached != nil {
 		p.Content = detached
 	}
-	p.Certificates = []*x509.Certificate{cert}
+	// this implementation also compares signingTime with the validity period of the certificate it is handed; the
+	// validity of the certificate is no part of what is asked of it here (as with openssl -noverify): it is handed
+	// the certificate with an unbounded period
+	unbounded := *cert
+	unbounded.NotBefore, unbounded.NotAfter = time.Time{}, time.Date(9999, 12, 31, 23, 59, 59, 0, time.UTC)
+	p.Certificates = []*x509.Certificate{&unbounded}
 	return p.Verify() == nil, true
 }
 
